@@ -1,10 +1,141 @@
 /-
-  TwProofs.C16 — property theorems (see DESIGN.md, section 6).
+  TwProofs.C16 — a render depends only on its arguments, not on earlier calls.
 -/
 import TwModel
-import TwSpec
 
 namespace Tw.C16
 open Tw
+
+/-- the rendering operations on a loaded template -/
+inductive ROp where
+  | str (name : Bytes) (data : List (Bytes × GoVal))
+  | resp (name : Bytes) (data : List (Bytes × GoVal))
+  | evs (src : Bytes) (data : List (Bytes × GoVal))
+  | evf (path : Bytes) (data : List (Bytes × GoVal))
+
+/-- what a caller observes of one operation -/
+inductive Obs where
+  | out (o : EvalOut)
+  | resp (r : RespOut)
+
+/-- one operation: the new package state and the observation -/
+def step (cwd : Bytes) (t : Template) (w : World) : ROp → World × Obs
+  | .str name data => (w, .out (tplString w t name data))
+  | .resp name data => let (w', r) := tplResponse w t name data cwd; (w', .resp r)
+  | .evs src data => let (w', r) := evaluateString w src data; (w', .out r)
+  | .evf path data => let (w', r) := evaluateFile w path data; (w', .out r)
+
+/-- the package state except the "uses templates" flag -/
+def SameButFlag (a c : World) : Prop := a.cfg = c.cfg ∧ a.custom = c.custom ∧ a.fs = c.fs
+
+theorem evaluateString_frame (w : World) (src : Bytes) (data : List (Bytes × GoVal)) :
+    SameButFlag (evaluateString w src data).1 w := ⟨rfl, rfl, rfl⟩
+
+theorem errorPage_frame (w : World) (f : Fail) (cwd : Bytes) : SameButFlag (errorPage w f cwd).1 w := ⟨rfl, rfl, rfl⟩
+
+theorem tplResponse_frame (w : World) (t : Template) (name : Bytes) (data : List (Bytes × GoVal)) (cwd : Bytes) :
+    SameButFlag (tplResponse w t name data cwd).1 w := by
+  unfold tplResponse
+  cases tplString w t name data with
+  | ok out => exact ⟨rfl, rfl, rfl⟩
+  | panic why => exact ⟨rfl, rfl, rfl⟩
+  | oof => exact ⟨rfl, rfl, rfl⟩
+  | fail f =>
+    simp only
+    split
+    · cases tplString w t w.cfg.errPage [] <;> exact ⟨rfl, rfl, rfl⟩
+    · have hw : (errorPage w f cwd).1 = { w with uses := false } := rfl
+      cases h : errorPage w f cwd with
+      | mk w' r =>
+        rw [h] at hw
+        simp only at hw
+        subst hw
+        cases r <;> exact ⟨rfl, rfl, rfl⟩
+
+/-- **state frame**: a render leaves the configuration, the registered functions and the files
+    as they were (only the mode flag may be written, and no render reads it) -/
+theorem render_state_frame (cwd : Bytes) (t : Template) (w : World) (op : ROp) : SameButFlag (step cwd t w op).1 w := by
+  cases op with
+  | str name data => exact ⟨rfl, rfl, rfl⟩
+  | evs src data => exact ⟨rfl, rfl, rfl⟩
+  | evf path data =>
+    simp only [step, evaluateFile]
+    split <;> exact ⟨rfl, rfl, rfl⟩
+  | resp name data => exact tplResponse_frame w t name data cwd
+
+/-- `Template.String` as a function of configuration and registered functions only -/
+def strPure (cfg : Cfg) (custom : List ((VType × Bytes) × Nat)) (t : Template) (name : Bytes) (data : List (Bytes × GoVal)) : EvalOut :=
+  tplString { cfg := cfg, custom := custom } t name data
+
+theorem tplString_pure (w : World) (t : Template) (name : Bytes) (data : List (Bytes × GoVal)) :
+    tplString w t name data = strPure w.cfg w.custom t name data := rfl
+
+/-- `Template.Response` as a function of configuration and registered functions only -/
+def respPure (cfg : Cfg) (custom : List ((VType × Bytes) × Nat)) (t : Template) (name : Bytes) (data : List (Bytes × GoVal)) (cwd : Bytes) : RespOut :=
+  (tplResponse { cfg := cfg, custom := custom } t name data cwd).2
+
+theorem tplResponse_pure (w : World) (t : Template) (name : Bytes) (data : List (Bytes × GoVal)) (cwd : Bytes) :
+    (tplResponse w t name data cwd).2 = respPure w.cfg w.custom t name data cwd := by
+  unfold respPure tplResponse
+  rw [tplString_pure w, tplString_pure { cfg := w.cfg, custom := w.custom }]
+  cases strPure w.cfg w.custom t name data with
+  | ok out => rfl
+  | panic why => rfl
+  | oof => rfl
+  | fail f =>
+    simp only
+    split
+    · rw [tplString_pure w, tplString_pure { cfg := w.cfg, custom := w.custom }]
+      cases strPure w.cfg w.custom t w.cfg.errPage [] <;> rfl
+    · have e1 : (errorPage w f cwd).2 = (errorPage { cfg := w.cfg, custom := w.custom } f cwd).2 := rfl
+      cases h1 : errorPage w f cwd with
+      | mk w1 r1 =>
+        cases h2 : errorPage { cfg := w.cfg, custom := w.custom } f cwd with
+        | mk w2 r2 =>
+          rw [h1, h2] at e1
+          simp only at e1
+          subst e1
+          cases r1 <;> rfl
+
+theorem evaluateFile_pure (w : World) (path : Bytes) (data : List (Bytes × GoVal)) :
+    (evaluateFile w path data).2 = (evaluateFile { cfg := w.cfg, custom := w.custom, fs := w.fs } path data).2 := by
+  unfold evaluateFile
+  cases readFile w.fs path <;> rfl
+
+/-- the observation of an operation does not depend on the mode flag -/
+theorem obs_congr (cwd : Bytes) (t : Template) (a c : World) (h : SameButFlag a c) (op : ROp) :
+    (step cwd t a op).2 = (step cwd t c op).2 := by
+  obtain ⟨h1, h2, h3⟩ := h
+  cases op with
+  | str name data => simp only [step, tplString_pure, h1, h2]
+  | evs src data => simp only [step, evaluateString, h2]
+  | evf path data =>
+    simp only [step]
+    rw [evaluateFile_pure a, evaluateFile_pure c, h1, h2, h3]
+  | resp name data =>
+    simp only [step]
+    rw [tplResponse_pure a, tplResponse_pure c, h1, h2]
+
+/-- running a history of operations -/
+def run (cwd : Bytes) (t : Template) (w : World) : List ROp → World
+  | [] => w
+  | op :: r => run cwd t (step cwd t w op).1 r
+
+theorem run_frame (cwd : Bytes) (t : Template) : ∀ (h : List ROp) (w : World), SameButFlag (run cwd t w h) w := by
+  intro h
+  induction h with
+  | nil => intro w; exact ⟨rfl, rfl, rfl⟩
+  | cons op r ih =>
+    intro w
+    obtain ⟨a1, a2, a3⟩ := ih (step cwd t w op).1
+    obtain ⟨b1, b2, b3⟩ := render_state_frame cwd t w op
+    exact ⟨a1.trans b1, a2.trans b2, a3.trans b3⟩
+
+/-- **history independence**: after *any* history of rendering operations — successful or
+    failing renders, error pages written through Response, string or file evaluations — an
+    operation returns exactly what it returns when issued first -/
+theorem history_independent (cwd : Bytes) (t : Template) (w : World) (h : List ROp) (op : ROp) :
+    (step cwd t (run cwd t w h) op).2 = (step cwd t w op).2 :=
+  obs_congr cwd t _ _ (run_frame cwd t h w) op
 
 end Tw.C16
